@@ -128,6 +128,17 @@ def check_inverse_map(ctx, b, ncol, rule):
                           'the angle written into a candidate is not (theta + offsets[i]) * sign[i] for the same i over all %d joints: same-index=%s F(G(theta))=theta %s loop 0..%s' % (
                               ncol, idx_ok, ident, util.const_val(r[1])),
                           found=show(V, maxdepth=5), detail=show(V, maxdepth=4))
+        if not found:
+            # both tables are there but the candidates are filled through iterators (zip of rows, zip of columns): by the
+            # symbolic run of the solver, as above
+            f, tail = opw.solver_tail(ctx, b, ncol == 5)
+            if f is not None:
+                im = tail.inverse_map()
+                bad = [(r, c, shown) for r, c, ok, shown in im if not ok]
+                ctx.check(not bad and len(im) == 8 * ncol, rule, name + '/inverse-map', b.where(0), b.path,
+                          'the angle written into a candidate is not (theta + offsets[i]) * sign[i] for the same i over all %d joints: %s' % (
+                              ncol, ['candidate %d slot %d = %s' % x for x in bad[:2]]), found=str(bad[:2]), detail='%d slots by symbolic interpretation' % len(im))
+                return
         ctx.check(found, rule, name + '/inverse-map-site', b.where(0), b.path, 'the sign/offset mapping of the candidate table was not found')
 
 
